@@ -71,7 +71,8 @@ def rand_row(rng, d, mode="exact"):
     """-> list of Fractions.  exact: sums to 1; near: |1-sum| <= 0.0005; far: |1-sum| >= 0.002"""
     if mode == "exact":
         T = rng.choice([2, 4, 5, 8, 10, 10, 20, 100, 100, 1000])
-        T = max(T, d) if rng.random() < 0.8 else T
+        if T < d and rng.random() < 0.8:
+            T = rng.choice([4, 8, 10, 20])
         allow_zero = rng.random() < 0.15 or T < d
         vals = composition(rng, T, d, allow_zero)
         return [Fraction(v, T) for v in vals]
@@ -260,9 +261,6 @@ def make_ast(rng, net, notations=None):
     for vv in vars_:
         if rng.random() < 0.2:
             vv["props"].append("position = (10, 20)")
-    for pb in probs:
-        if rng.random() < 0.1:
-            pb["items"].insert(rng.randrange(len(pb["items"]) + 1), ["property", "note some text, with commas"])
     return {"vars": vars_, "probs": probs, "order": order}, used
 
 
@@ -339,7 +337,7 @@ MALFORMED = ["missing_row", "table_len", "entry_probs_len", "entry_cond_len", "d
              "sum_out_entry", "sum_out_default", "dup_entry", "two_tables", "two_defaults", "undefined_parent",
              "undefined_var", "bad_cond_value", "no_cpt", "two_cpts", "dup_var", "dom_dup", "size_mismatch",
              "two_types", "no_type", "dup_parent", "cycle", "text_int_literal", "text_missing_semicolon",
-             "text_unknown_block", "text_empty_domain", "cond_order_swapped"]
+             "text_unknown_block", "text_empty_domain", "cond_order_swapped", "prob_property"]
 
 
 def _blocks_with(ast, pred):
@@ -514,6 +512,14 @@ def _apply(rng, kind, ast, net, info):
         return True
     if kind in ("dup_parent", "cycle"):
         info["maybe_accepted"] = True
+        return True
+    if kind == "prob_property":
+        # a property line inside a probability block: allowed by bif-syntax.lark, but __add_cpt__ has no
+        # case for it (assert False) -- the file is refused although it is well-formed BIF
+        pb = rng.choice(probs)
+        pb["items"].insert(rng.randrange(len(pb["items"]) + 1), ["property", "note some text, with commas"])
+        info["expect_accept"] = False
+        info["well_formed_bif"] = True
         return True
     if kind.startswith("text_"):
         return True
